@@ -14,17 +14,19 @@ import (
 )
 
 type Obl struct {
-	Name   string
-	Kind   string
-	Pos    int // prelude length at which the obligation was raised
-	Reach  string
-	Cond   string
-	Fn     string // function key the obligation belongs to
-	Label  string // contract clause label ("" for safety obligations)
-	Text   string // source text / clause text
-	SrcPos string
-	Thor   bool
-	Cover  bool // vacuity query: expected SAT
+	Name    string
+	Kind    string
+	Pos     int // prelude length at which the obligation was raised
+	Reach   string
+	Cond    string
+	Fn      string // function key the obligation belongs to
+	Label   string // contract clause label ("" for safety obligations)
+	Text    string // source text / clause text
+	SrcPos  string
+	Thor    bool
+	Cover   bool // vacuity query: expected SAT
+	noSplit bool
+	Mode    string
 	Bounded int
 }
 
@@ -44,16 +46,21 @@ type Exec struct {
 	havocked  map[string]bool
 	ctr0      string
 
-	obls      []*Obl
-	nameCount map[string]int
-	trusted   map[string]bool // assumptions actually used (stubs, inlined callees, ...)
-	inlined   map[string]bool
-	inputs    []inputSym
-	strLits   map[string]string
-	globIDs   map[string]int
-	thorough  bool
+	obls         []*Obl
+	nameCount    map[string]int
+	trusted      map[string]bool // assumptions actually used (stubs, inlined callees, ...)
+	inlined      map[string]bool
+	inputs       []inputSym
+	strLits      map[string]string
+	globIDs      map[string]int
+	thorough     bool
 	termUnproved []string
-	usesQuant bool
+	usesQuant    bool
+	usesLambda   bool
+	branches     []branchCond
+	branchSeen   map[string]bool
+	autoOff      map[string]bool // disabled auto-invariant candidates (Houdini)
+	autoSeen     []string
 }
 
 type inputSym struct {
@@ -69,37 +76,40 @@ type retRec struct {
 }
 
 type loopInfo struct {
-	header *ssa.BasicBlock
-	body   map[*ssa.BasicBlock]bool
-	latches []*ssa.BasicBlock
-	ordinal int // 1-based source ordinal (0 = unmapped)
-	stmt    ast.Node
-	entrySt *State            // state just after havoc (iteration start), for old() in step clauses
+	header    *ssa.BasicBlock
+	body      map[*ssa.BasicBlock]bool
+	latches   []*ssa.BasicBlock
+	ordinal   int // 1-based source ordinal (0 = unmapped)
+	stmt      ast.Node
+	entrySt   *State          // state just after havoc (iteration start), for old() in step clauses
 	entryVals map[string]*Val // phi name -> value at iteration start
-	mods    map[string]bool
+	mods      map[string]bool
+	preSt     *State               // state just before the loop is entered (for pre(...))
+	onlyVia   map[string]ssa.Value // family -> the single outside-defined slice through which the loop writes it
+	autos     []*autoInv
 }
 
 type Frame struct {
-	ex     *Exec
-	fn     *ssa.Function
-	spec   *FuncSpec
-	vals   map[ssa.Value]*Val
-	reach  map[*ssa.BasicBlock]string
-	outSt  map[*ssa.BasicBlock]*State
-	envOut map[*ssa.BasicBlock]map[string]envEnt
-	env    map[string]envEnt // current block env
-	depth  int
-	prefix string
-	parent *Frame
-	rets   []retRec
-	loops  map[*ssa.BasicBlock]*loopInfo
-	inLoop map[*ssa.BasicBlock]*loopInfo // innermost loop containing block
-	defers []*ssa.Defer
-	entrySt *State
-	params map[string]*Val
-	paramT map[string]types.Type
-	cur    *ssa.BasicBlock
-	st     *State
+	ex        *Exec
+	fn        *ssa.Function
+	spec      *FuncSpec
+	vals      map[ssa.Value]*Val
+	reach     map[*ssa.BasicBlock]string
+	outSt     map[*ssa.BasicBlock]*State
+	envOut    map[*ssa.BasicBlock]map[string]envEnt
+	env       map[string]envEnt // current block env
+	depth     int
+	prefix    string
+	parent    *Frame
+	rets      []retRec
+	loops     map[*ssa.BasicBlock]*loopInfo
+	inLoop    map[*ssa.BasicBlock]*loopInfo // innermost loop containing block
+	defers    []*ssa.Defer
+	entrySt   *State
+	params    map[string]*Val
+	paramT    map[string]types.Type
+	cur       *ssa.BasicBlock
+	st        *State
 	backEdges map[[2]*ssa.BasicBlock]bool
 	callStack []*ssa.Function
 }
@@ -109,17 +119,42 @@ type envEnt struct {
 	isAddr bool
 }
 
-func newExec(P *Prog, fn *ssa.Function, spec *FuncSpec, thorough bool) *Exec {
+func newExec(P *Prog, fn *ssa.Function, spec *FuncSpec, thorough bool, forceMode string) *Exec {
 	intMode := spec != nil && spec.Mode == "int"
+	if forceMode != "" {
+		intMode = forceMode == "int"
+	}
 	ar := Arith{intMode}
 	ex := &Exec{P: P, q: newQ(intMode), ar: ar, ls: &layouts{ar: ar, cache: map[types.Type]*Layout{}}, top: fn, spec: spec,
 		heapSorts: map[string]Sort{}, initHeaps: map[string]*HeapV{}, factDone: map[string]bool{}, events: map[string]*heapEvent{},
 		havocked: map[string]bool{}, nameCount: map[string]int{}, trusted: map[string]bool{}, inlined: map[string]bool{},
-		strLits: map[string]string{}, globIDs: map[string]int{}, thorough: thorough}
+		strLits: map[string]string{}, globIDs: map[string]int{}, thorough: thorough, branchSeen: map[string]bool{}}
 	ex.ctr0 = ex.q.fresh("ctr0", SInt)
 	ex.q.assume("(>= " + ex.ctr0 + " 0)")
 	ex.q.lines = append(ex.q.lines, "(declare-const f64zero F64)")
 	return ex
+}
+
+// noteBranch records a branch condition (a named Boolean term) together
+// with the prelude position from which it is defined, for cube splitting.
+func (ex *Exec) noteBranch(c string) {
+	if c == "true" || c == "false" || strings.ContainsAny(c, " (") {
+		if strings.HasPrefix(c, "(not ") && !strings.ContainsAny(c[5:len(c)-1], " (") {
+			c = c[5 : len(c)-1]
+		} else {
+			return
+		}
+	}
+	if ex.branchSeen[c] {
+		return
+	}
+	ex.branchSeen[c] = true
+	ex.branches = append(ex.branches, branchCond{c, ex.q.pos()})
+}
+
+type branchCond struct {
+	name string
+	pos  int
 }
 
 func (ex *Exec) idx(v int64) string { return ex.ar.litI(IntT{64, true}, v) }
@@ -153,8 +188,11 @@ func (fr *Frame) oblige(kind, text, cond string, pos token.Pos) *Obl {
 		o.SrcPos = fmt.Sprintf("%s:%d", strings.TrimPrefix(p.Filename, fr.ex.P.repo+"/"), p.Line)
 	}
 	fr.ex.obls = append(fr.ex.obls, o)
-	// after the check the program continues only if it held
-	fr.ex.q.assume(implies(o.Reach, cond))
+	// after the check the program continues only if it held (array equalities
+	// of heap summaries are not re-assumed: the summary heap is used instead)
+	if !strings.Contains(cond, "(lambda ") {
+		fr.ex.q.assume(implies(o.Reach, cond))
+	}
 	return o
 }
 
@@ -389,10 +427,17 @@ func compAddr(addr string, k int) string { return fmt.Sprintf("(fld %s (- %d))",
 func (ex *Exec) load(st *State, addr string, l *Layout, hint string, facts bool) *Val {
 	switch l.Kind {
 	case LScalar:
+		var t string
 		if hint != "" {
-			return sv(ex.loadLeaf(st, ex.hKey(hint, 0, l.Sort), addr, facts))
+			t = ex.loadLeaf(st, ex.hKey(hint, 0, l.Sort), addr, facts)
+		} else {
+			t = ex.loadLeaf(st, ex.pKey(leafClass(l)), addr, facts)
 		}
-		return sv(ex.loadLeaf(st, ex.pKey(leafClass(l)), addr, facts))
+		if ex.ar.intMode && l.Int != nil && facts {
+			// typed heap: integer cells hold values of their type
+			ex.q.assume(ex.ar.inRange(*l.Int, t))
+		}
+		return sv(t)
 	case LSlice, LString, LIface:
 		sorts := ex.ls.compSorts(l)
 		classes := []string{"Addr", "bv64", "bv64", "bv64"}
@@ -612,7 +657,59 @@ func (fr *Frame) analyzeLoops() {
 }
 
 // callMods: families a call may write.
+// singleSliceWrites: for each shared family written in the loop, the one
+// slice value (defined outside the loop) through whose elements all of those
+// writes go, if that is syntactically evident: every store to the family in
+// the loop body is *IndexAddr(S, _) = v (bounds-checked) and no call, copy or
+// append in the body may write the family.
+func (fr *Frame) singleSliceWrites(li *loopInfo) map[string]ssa.Value {
+	out := map[string]ssa.Value{}
+	bad := map[string]bool{}
+	for b := range li.body {
+		for _, in := range b.Instrs {
+			switch x := in.(type) {
+			case *ssa.Store:
+				fams := map[string]bool{}
+				fr.ex.P.instrMods(in, func(s string) { fams[s] = true })
+				ia, ok := x.Addr.(*ssa.IndexAddr)
+				okS := false
+				if ok {
+					if _, isSl := ia.X.Type().Underlying().(*types.Slice); isSl && fr.definedOutside(li, ia.X) {
+						okS = true
+					}
+				}
+				for f := range fams {
+					if !strings.HasPrefix(f, "P:") {
+						continue
+					}
+					if !okS {
+						bad[f] = true
+						continue
+					}
+					if prev, has := out[f]; has && prev != ia.X {
+						bad[f] = true
+					}
+					out[f] = ia.X
+				}
+			case ssa.CallInstruction:
+				if _, isGo := in.(*ssa.Go); isGo {
+					continue
+				}
+				fr.ex.P.instrMods(in, func(s string) { bad[s] = true })
+				fr.ex.callMods(x.Common(), func(s string) { bad[s] = true })
+			}
+		}
+	}
+	for f := range bad {
+		delete(out, f)
+	}
+	return out
+}
+
 func (ex *Exec) callMods(c *ssa.CallCommon, add func(string)) {
+	if c.IsInvoke() && isLoggerIface(c.Value.Type()) {
+		return
+	}
 	if callee := c.StaticCallee(); callee != nil {
 		if ex.P.pureExternal(callee) {
 			return
@@ -680,6 +777,7 @@ func (fr *Frame) edgeCond(p, b *ssa.BasicBlock) string {
 	r := fr.reach[p]
 	if iff, ok := p.Instrs[len(p.Instrs)-1].(*ssa.If); ok {
 		c := fr.val(iff.Cond).T
+		fr.ex.noteBranch(c)
 		if p.Succs[0] == b && p.Succs[1] == b {
 			return r
 		}
@@ -800,6 +898,12 @@ func (fr *Frame) loopHead(li *loopInfo) {
 	if fr.spec != nil && li.ordinal > 0 {
 		ls = fr.spec.Loops[li.ordinal]
 	}
+	ls = ls.forTier(ex.thorough)
+	li.preSt = fr.st.clone()
+	li.autos = fr.autoCandidates(li)
+	for _, a := range li.autos {
+		fr.oblige("inv-entry", fmt.Sprintf("loop%d:auto:%s", li.ordinal, a.name), a.cond(fr, fr.vals[a.phi]), token.NoPos)
+	}
 	// 1. invariants on entry
 	if ls != nil {
 		for _, c := range ls.Invariants {
@@ -810,8 +914,18 @@ func (fr *Frame) loopHead(li *loopInfo) {
 			cond := cx.evalBool(c.Expr)
 			o := fr.oblige("inv-entry", fmt.Sprintf("loop%d:%s", li.ordinal, clauseName(c)), cond, token.NoPos)
 			if o != nil {
-				o.Label = c.Label
+				o.Label, o.Mode = c.Label, c.Mode
 			}
+		}
+	}
+	// heap summaries (fills): entry check against the pre-loop heap
+	filled := map[string]bool{}
+	if ls != nil {
+		for i, f := range ls.Fills {
+			cx := fr.loopCtx(li, nil, fr.st, false)
+			key, lam := fr.fillLambda(cx, f, li.preSt)
+			filled[famOfKey(key)] = true
+			fr.oblige("inv-entry", fmt.Sprintf("loop%d:fills%d:%s", li.ordinal, i, f.Src), eq(ex.heap(fr.st, key).term, lam), token.NoPos)
 		}
 	}
 	// 2. havoc
@@ -824,7 +938,24 @@ func (fr *Frame) loopHead(li *loopInfo) {
 		nv := ex.freshVal(l, "loop_"+phi.Comment)
 		fr.vals[phi] = nv
 	}
-	ex.havocFamilies(fr.st, li.mods)
+	hm := map[string]bool{}
+	for k := range li.mods {
+		if !filled[k] {
+			hm[k] = true
+		}
+	}
+	ex.havocFamilies(fr.st, hm)
+	if ls != nil {
+		for _, f := range ls.Fills {
+			cx := fr.loopCtx(li, nil, fr.st, false)
+			key, lam := fr.fillLambda(cx, f, li.preSt)
+			ex.q.n++
+			name := fmt.Sprintf("Hfill_%s!%d", sanitize(key), ex.q.n)
+			ex.q.lines = append(ex.q.lines, fmt.Sprintf("(define-fun %s () %s %s)", name, arraySort(ex.heapSort(key)), lam))
+			fr.st.heaps[key] = &HeapV{term: name, bases: ex.heap(li.preSt, key).bases}
+			ex.usesLambda = true
+		}
+	}
 	// loaded pointers in fresh values refer to allocated objects
 	for _, in := range b.Instrs {
 		phi, ok := in.(*ssa.Phi)
@@ -832,6 +963,37 @@ func (fr *Frame) loopHead(li *loopInfo) {
 			break
 		}
 		ex.assumeAllocated(ex.ls.of(phi.Type()), fr.vals[phi], fr.st.ctr)
+	}
+	// automatic frame: a family written only through the elements of one slice
+	// keeps every cell outside that slice
+	for fam, sl := range fr.singleSliceWrites(li) {
+		if filled[fam] {
+			continue
+		}
+		svv := fr.val(sl)
+		for _, key := range []string{ex.pKey(strings.TrimPrefix(fam, "P:"))} {
+			oldH := ex.heap(li.preSt, key)
+			newH := ex.heap(fr.st, key)
+			in := and("((_ is elem) a)", eq("(ebase a)", svv.C[0].T), ex.ar.cmp("<=", idxT, svv.C[1].T, "(eidx a)"),
+				ex.ar.cmp("<", idxT, "(eidx a)", ex.ar.add(idxT, svv.C[1].T, svv.C[2].T)))
+			if useLambda {
+				ex.q.n++
+				name := fmt.Sprintf("Hf_%s!%d", sanitize(key), ex.q.n)
+				ex.q.lines = append(ex.q.lines, fmt.Sprintf("(define-fun %s () %s (lambda ((a Addr)) (ite %s (select %s a) (select %s a))))", name, arraySort(ex.heapSort(key)), in, newH.term, oldH.term))
+				fr.st.heaps[key] = &HeapV{term: name, bases: mergeBases(newH.bases, oldH.bases)}
+				ex.usesLambda = true
+				continue
+			}
+			bind := func(name string, s Sort, t string) string {
+				c := ex.q.fresh(name, s)
+				ex.q.assume(eq(c, t))
+				return c
+			}
+			nb := bind("fr_new", arraySort(ex.heapSort(key)), newH.term)
+			ob := bind("fr_old", arraySort(ex.heapSort(key)), oldH.term)
+			ex.q.assume(fmt.Sprintf("(forall ((a Addr)) (! (=> (not %s) (= (select %s a) (select %s a))) :pattern ((select %s a))))", in, nb, ob, nb))
+			ex.usesQuant = true
+		}
 	}
 	li.entrySt = fr.st.clone()
 	li.entryVals = map[string]*Val{}
@@ -841,6 +1003,9 @@ func (fr *Frame) loopHead(li *loopInfo) {
 		}
 	}
 	// 3. assume invariants
+	for _, a := range li.autos {
+		ex.q.assume(implies(fr.reach[b], a.cond(fr, fr.vals[a.phi])))
+	}
 	if ls != nil {
 		for _, c := range ls.Invariants {
 			if c.Thor && !ex.thorough {
@@ -873,8 +1038,12 @@ func (fr *Frame) backEdge(from *ssa.BasicBlock, li *loopInfo, cond string) {
 	if fr.spec != nil && li.ordinal > 0 {
 		ls = fr.spec.Loops[li.ordinal]
 	}
-	if ls == nil {
+	ls = ls.forTier(ex.thorough)
+	if ls == nil && len(li.autos) == 0 {
 		return
+	}
+	if ls == nil {
+		ls = &LoopSpec{}
 	}
 	// values of the header phis along this edge
 	next := map[string]*Val{}
@@ -894,6 +1063,18 @@ func (fr *Frame) backEdge(from *ssa.BasicBlock, li *loopInfo, cond string) {
 	saveReach := fr.reach[fr.cur]
 	fr.reach[fr.cur] = ex.q.def("back", SBool, cond)
 	defer func() { fr.reach[fr.cur] = saveReach }()
+	for _, a := range li.autos {
+		for i, p := range li.header.Preds {
+			if p == from {
+				fr.oblige("inv-keep", fmt.Sprintf("loop%d:auto:%s", li.ordinal, a.name), a.cond(fr, fr.val(a.phi.Edges[i])), token.NoPos)
+			}
+		}
+	}
+	for i, f := range ls.Fills {
+		cx := fr.loopCtx(li, next, fr.st, false)
+		key, lam := fr.fillLambda(cx, f, li.preSt)
+		fr.oblige("inv-keep", fmt.Sprintf("loop%d:fills%d:%s", li.ordinal, i, f.Src), eq(ex.heap(fr.st, key).term, lam), token.NoPos)
+	}
 	for _, c := range ls.Invariants {
 		if c.Thor && !ex.thorough {
 			continue
@@ -901,7 +1082,7 @@ func (fr *Frame) backEdge(from *ssa.BasicBlock, li *loopInfo, cond string) {
 		cx := fr.loopCtx(li, next, fr.st, true)
 		o := fr.oblige("inv-keep", fmt.Sprintf("loop%d:%s", li.ordinal, clauseName(c)), cx.evalBool(c.Expr), token.NoPos)
 		if o != nil {
-			o.Label = c.Label
+			o.Label, o.Mode = c.Label, c.Mode
 		}
 	}
 	for _, c := range ls.Steps {
@@ -913,14 +1094,13 @@ func (fr *Frame) backEdge(from *ssa.BasicBlock, li *loopInfo, cond string) {
 		cx.oldVals = li.entryVals
 		o := fr.oblige("step", fmt.Sprintf("loop%d:%s", li.ordinal, clauseName(c)), cx.evalBool(c.Expr), token.NoPos)
 		if o != nil {
-			o.Label = c.Label
+			o.Label, o.Mode = c.Label, c.Mode
 		}
 	}
 	if ls.Decreases != nil {
 		cx := fr.loopCtx(li, next, fr.st, true)
 		nv := cx.evalInt(ls.Decreases.Expr)
-		cx0 := fr.loopCtx(li, nil, li.entrySt, false)
-		cx0.vals = li.entryVals
+		cx0 := fr.loopCtx(li, li.entryVals, li.entrySt, false)
 		ov := cx0.evalInt(ls.Decreases.Expr)
 		z := ex.idx(0)
 		fr.oblige("dec", fmt.Sprintf("loop%d:%s", li.ordinal, clauseName(ls.Decreases)),
@@ -938,4 +1118,157 @@ func (fr *Frame) execBlock(b *ssa.BasicBlock) {
 			fr.backEdge(b, fr.loops[s], fr.edgeCond(b, s))
 		}
 	}
+}
+
+// ---------- automatic invariant candidates (Houdini, DESIGN §2.4) ----------
+
+type autoInv struct {
+	name string
+	phi  *ssa.Phi
+	cond func(fr *Frame, v *Val) string
+}
+
+func (fr *Frame) definedOutside(li *loopInfo, v ssa.Value) bool {
+	switch x := v.(type) {
+	case *ssa.Const, *ssa.Parameter, *ssa.Global, *ssa.FreeVar:
+		return true
+	case ssa.Instruction:
+		return !li.body[x.Block()]
+	}
+	return false
+}
+
+func (fr *Frame) autoCandidates(li *loopInfo) []*autoInv {
+	ex := fr.ex
+	var out []*autoInv
+	add := func(a *autoInv) {
+		full := fmt.Sprintf("%s/loop%d:%s", fr.prefix, li.ordinal, a.name)
+		if fr.depth == 0 {
+			ex.autoSeen = append(ex.autoSeen, fmt.Sprintf("loop%d:auto:%s", li.ordinal, a.name))
+		}
+		if ex.autoOff[fmt.Sprintf("loop%d:auto:%s", li.ordinal, a.name)] && fr.depth == 0 {
+			return
+		}
+		_ = full
+		out = append(out, a)
+	}
+	if fr.depth > 0 {
+		return nil // inlined callees have no loops
+	}
+	for _, in := range li.header.Instrs {
+		phi, ok := in.(*ssa.Phi)
+		if !ok {
+			break
+		}
+		it := intTOf(phi.Type())
+		if it == nil {
+			continue
+		}
+		name := phi.Comment
+		if name == "" {
+			name = phi.Name()
+		}
+		// T1: phi >= init  (init = value on the entry edge, defined outside the loop)
+		var init ssa.Value
+		for i, p := range li.header.Preds {
+			if !li.body[p] {
+				if init != nil && init != phi.Edges[i] {
+					init = nil
+					break
+				}
+				init = phi.Edges[i]
+			}
+		}
+		if init != nil && fr.definedOutside(li, init) {
+			iv := init
+			t := *it
+			out0 := &autoInv{name: name + ">=init", phi: phi, cond: func(fr *Frame, v *Val) string {
+				return fr.ex.ar.cmp(">=", t, v.T, fr.val(iv).T)
+			}}
+			add(out0)
+		}
+		// T2: phi <= bound for loops guarded by phi < bound / phi <= bound / phi != bound
+		for b := range li.body {
+			iff, ok := b.Instrs[len(b.Instrs)-1].(*ssa.If)
+			if !ok {
+				continue
+			}
+			// one successor leaves the loop
+			if li.body[b.Succs[0]] == li.body[b.Succs[1]] {
+				continue
+			}
+			bo, ok := iff.Cond.(*ssa.BinOp)
+			if !ok {
+				continue
+			}
+			var bound ssa.Value
+			switch {
+			case bo.X == ssa.Value(phi) && fr.definedOutside(li, bo.Y):
+				bound = bo.Y
+			default:
+				// range loops: t2 = phi + 1; t2 < len
+				if inc, ok := bo.X.(*ssa.BinOp); ok && inc.X == ssa.Value(phi) && fr.definedOutside(li, bo.Y) {
+					if c, ok := inc.Y.(*ssa.Const); ok && c.Int64() == 1 && (bo.Op == token.LSS) {
+						// phi + 1 <= bound at the header once the loop has iterated; phi < bound
+						bv := bo.Y
+						t := *it
+						add(&autoInv{name: name + "<bound", phi: phi, cond: func(fr *Frame, v *Val) string {
+							return fr.ex.ar.cmp("<", t, v.T, fr.val(bv).T)
+						}})
+					}
+				}
+				continue
+			}
+			if bo.Op != token.LSS && bo.Op != token.LEQ && bo.Op != token.NEQ {
+				continue
+			}
+			bv := bound
+			t := *it
+			op := "<="
+			add(&autoInv{name: name + "<=bound", phi: phi, cond: func(fr *Frame, v *Val) string {
+				return fr.ex.ar.cmp(op, t, v.T, fr.val(bv).T)
+			}})
+		}
+	}
+	return out
+}
+
+// fillLambda: the heap "pre-loop heap with S[lo:hi] set to v" as a z3 array
+// lambda, for the values of the loop variables visible in cx.
+func (fr *Frame) fillLambda(cx *Ctx, f *FillSpec, pre *State) (key, lam string) {
+	ex := fr.ex
+	sl := cx.eval(f.Slice)
+	st, ok := sl.T.Underlying().(*types.Slice)
+	if !ok {
+		cx.fail("fills: %s is not a slice", f.Slice)
+	}
+	el := ex.ls.of(st.Elem())
+	if el.Kind != LScalar {
+		cx.fail("fills: element type of %s is not scalar", f.Slice)
+	}
+	key = ex.pKey(leafClass(el))
+	lo, hi := cx.evalInt(f.Lo), cx.evalInt(f.Hi)
+	v := cx.typed(cx.eval(f.Val), st.Elem())
+	ar := ex.ar
+	base := ex.q.def("fb", SAddr, sl.V.C[0].T)
+	l := ex.q.def("flo", ar.idxSort(), ar.add(idxT, sl.V.C[1].T, lo))
+	h := ex.q.def("fhi", ar.idxSort(), ar.add(idxT, sl.V.C[1].T, hi))
+	in := and("((_ is elem) a)", eq("(ebase a)", base), ar.cmp("<=", idxT, l, "(eidx a)"), ar.cmp("<", idxT, "(eidx a)", h))
+	lam = fmt.Sprintf("(lambda ((a Addr)) (ite %s %s (select %s a)))", in, v.V.T, ex.heap(pre, key).term)
+	return
+}
+
+// forTier drops thorough-only heap summaries in the quick tier.
+func (ls *LoopSpec) forTier(thorough bool) *LoopSpec {
+	if ls == nil || thorough {
+		return ls
+	}
+	c := *ls
+	c.Fills = nil
+	for _, f := range ls.Fills {
+		if !f.Thor {
+			c.Fills = append(c.Fills, f)
+		}
+	}
+	return &c
 }
